@@ -65,6 +65,10 @@ def _variant(rng, label: str) -> tuple[str, str]:
 
 def _gen_label(rng) -> str:
     parts = ["".join(rng.choice(LETTERS) for _ in range(rng.randint(1, 3))) for _ in range(rng.randint(1, 2))]
+    if rng.random() < 0.02:
+        # a very long label (still below the 999 characters CommonMark allows) whose letters grow when case-folded
+        unit = "".join(rng.choice(["ß", "ﬁ", "ǅ", "a", "ẞ", "b c"]) for _ in range(6))
+        parts = [(unit * 200)[:rng.choice([480, 700, 960])].strip()]
     return " ".join(parts) + "7"
 
 
@@ -118,10 +122,16 @@ def gen(rng: random.Random, tier: str) -> dict:
     wraps = [None] * len(blocks)
     if pre["container"]:
         wraps = [(rng.randrange(len(b)) if rng.random() < 0.6 else None) for b in blocks]
+    # whole blocks inside a block quote or a list item (definitions act document-wide from inside containers too; their
+    # continuation lines - multi-line titles - carry the container's indentation in the source)
+    kinds = [None] * len(blocks)
+    if rng.random() < 0.3:
+        kinds = [(rng.choice(["quote", "list", "olist"]) if (wraps[b] is None and rng.random() < 0.6) else None)
+                 for b in range(len(blocks))]
     leads = [None] * len(blocks)
     if pre["ref_alt"] and "paragraph" in pre["ref_alt"]:
         # the rule may now interrupt a paragraph: a definition directly under a line of text
-        leads = [(f"lead text {b}" if rng.random() < 0.5 else None) for b in range(len(blocks))]
+        leads = [(f"lead text {b}" if (rng.random() < 0.5 and kinds[b] is None) else None) for b in range(len(blocks))]
     n_env = rng.choice([1, 1, 2])
     n_inst = rng.choice([1, 1, 2])
     hist = []
@@ -143,7 +153,7 @@ def gen(rng: random.Random, tier: str) -> dict:
         base = rng.choice(pool)
         var, vk = _variant(rng, base)
         uses.append({"label": var, "vk": vk, "form": rng.choice(["full", "full", "collapsed", "shortcut", "image"])})
-    return {"cfg": cfg, "pre": pre, "leads": leads, "wraps": wraps, "blocks": blocks, "n_env": n_env, "n_inst": n_inst, "hist": hist,
+    return {"cfg": cfg, "pre": pre, "leads": leads, "wraps": wraps, "kinds": kinds, "blocks": blocks, "n_env": n_env, "n_inst": n_inst, "hist": hist,
             "env_type": rng.choice(["dict", "dict", "userdict"]),
             "probe": {"inst": rng.randrange(n_inst), "env": rng.randrange(n_env), "doc": doc, "redefine": redefine,
                       "uses": uses}}
@@ -190,6 +200,21 @@ def _wrapped_text(defs, k) -> str:
     if k is None:
         return _block_text(defs)
     return "".join(d["text"] + "\n" for d in defs[:k]) + ":::\n" + "".join(d["text"] + "\n" for d in defs[k:]) + ":::\n"
+
+
+# adjacent lists merge when they have the same bullet character / the same ordered delimiter (whatever the number)
+MARKERS = {"list": ["- ", "* ", "+ "], "olist": ["1. ", "7) "]}
+
+
+def _in_container(text: str, kind: str, nth: int) -> str:
+    """The block's lines inside a block quote or as the single item of a list (marker rotates with the position in the
+    env's log, so that two adjacent seeded blocks never merge into one list)."""
+    lines = text.rstrip("\n").split("\n")
+    if kind == "quote":
+        return "".join("> " + ln + "\n" for ln in lines)
+    m = MARKERS[kind][nth % len(MARKERS[kind])]
+    pad = " " * len(m)
+    return m + lines[0] + "\n" + "".join(pad + ln + "\n" for ln in lines[1:])
 
 
 def build_inst(rec, used: bool):
@@ -257,6 +282,12 @@ def execute(rec: dict, res: RunResult) -> None:
         text = (lead + "\n" if lead else "") + _wrapped_text(defs, wrap)
         if wrap is not None:
             res.count("definitions_inside_nested_subdocument_container")
+        kind = (rec.get("kinds") or [None] * len(rec["blocks"]))[b]
+        if kind and not lead and wrap is None:
+            text = _in_container(text, kind, len(logs[e]))
+            res.count("definitions_inside_blockquote_or_list_item")
+        else:
+            kind = None
         for d in defs:
             for key in model[e]:
                 if not _agree(d["label"], model[e][key]["label"]):
@@ -266,7 +297,16 @@ def execute(rec: dict, res: RunResult) -> None:
         n_ref0 = len(env.get("references", {}))
         n_dup0 = len(env.get("duplicate_refs", []))
         toks = insts[i].parse(text, env)
-        if lead:
+        if kind:
+            want = {"quote": ["blockquote_open", "blockquote_close"],
+                    "list": ["bullet_list_open", "list_item_open", "list_item_close", "bullet_list_close"],
+                    "olist": ["ordered_list_open", "list_item_open", "list_item_close", "ordered_list_close"]}[kind]
+            if [t.type for t in toks] != want:
+                # something of the block ended up as content of the container: nothing can be said about definitions
+                res.count("discarded_container_block_not_pure_definitions")
+                res.events.append([k, "discarded"])
+                return
+        elif lead:
             res.count("definition_directly_under_paragraph_text")
             if [t.type for t in toks] != ["paragraph_open", "inline", "paragraph_close"] or toks[1].content != lead:
                 # the paragraph was not interrupted as the alt-chain registration asks (or more than the lead ended up in
@@ -326,7 +366,8 @@ def execute(rec: dict, res: RunResult) -> None:
             line += nlines
         seeded_blocks[e].add(b)
         logs[e].append(text)
-        lead_log[e].append(lead)
+        # what the block itself renders to (a lead paragraph, an empty container): rendered alone on a never-used twin
+        lead_log[e].append(lead + "\n" if lead else (text if kind else None))
 
     # ---- the probe document
     p = rec["probe"]
@@ -339,6 +380,8 @@ def execute(rec: dict, res: RunResult) -> None:
         if norm_model(p["redefine"]["label"]) in model[p["env"]]:
             res.count("duplicate_in_D_of_seeded_label")
     use_paras = [_use_text(u) for u in p["uses"]]
+    if any(rec.get("kinds") or []):
+        D = "sep\n\n" + D          # a paragraph first: the document's own first block must not merge with a seeded list
     D = D + "\n\n".join(use_paras) + "\n\n" + p["doc"]
     seeded_keys = set(model[p["env"]])
     html_hist = md.render(D, env)
@@ -348,7 +391,7 @@ def execute(rec: dict, res: RunResult) -> None:
     html_cat = fresh.render(concat, env2)
     # lead paragraphs of the seeding parses are part of the one-go document: their own HTML (rendered alone on a
     # never-used twin) comes first
-    lead_html = "".join(build_inst(rec, False).render(ld + "\n") for ld in lead_log[p["env"]] if ld)
+    lead_html = "".join(build_inst(rec, False).render(ld) for ld in lead_log[p["env"]] if ld)
     html_hist = lead_html + html_hist
     res.events.append(["probe", html_hist])
     res.steps += 1
@@ -433,7 +476,7 @@ class C16(Engine):
                        "duplicate_in_D_of_seeded_label", "multiline_definition", "userdict_env", "two_instances_one_env",
                        "inline_form_compared", "instances_with_a_past", "link_hook_reassigned_before_history",
                        "reference_rule_reregistered_with_alt", "definition_directly_under_paragraph_text",
-                       "definitions_inside_nested_subdocument_container"]
+                       "definitions_inside_nested_subdocument_container", "definitions_inside_blockquote_or_list_item"]
 
     def budget(self, tier):
         if tier == "quick":
@@ -482,6 +525,8 @@ class C16(Engine):
                 yield {**rec, "pre": {**pre, key: simple}}
         if pre.get("ref_alt") is not None and not any(rec.get("leads") or []):
             yield {**rec, "pre": {**pre, "ref_alt": None}}
+        if any(rec.get("kinds") or []):
+            yield {**rec, "kinds": [None] * len(rec["blocks"])}
         if pre.get("container") and rec.get("wraps"):
             for b, k in enumerate(rec["wraps"]):
                 if k is not None:
